@@ -4,7 +4,7 @@ from checks import rtcommon
 
 def run(ctx):
     args = (["--n", "1400", "--maxdim", "40", "--exh", "1"] if ctx.quick
-            else ["--n", "20000", "--maxdim", "72", "--exh", "2", "--big"])
+            else ["--n", "80000", "--maxdim", "72", "--exh", "2", "--big"])
     return rtcommon.run_contract(
         ctx, "c04", args, class_keys=("c", "p", "signed", "levels", "prog", "layers", "mct", "cls"),
         rule="scenario = jpeg2000.NewEncoder(params).Encode then NewDecoder().Decode with Lossless=true and a single tile; "
